@@ -22,7 +22,7 @@ func init() {
 			"(R1) every types.Host value returned by a ChooseHost method, or by any helper whose result can flow into such a return, is nil or was observed healthy (h.Health() true edge dominates the return / phi edge) on that very path — decided as a greatest fixed point over phi cycles and interprocedural summaries; " +
 			"(R2) every non-nil returned host originates from HostSet.Get on the balancer's own host set or from the EDF scheduler which is filled only from that set; " +
 			"(R3) the host-set fields of balancers and the cluster snapshot are written only while the object is being constructed and the snapshot is published by atomic.Value.Store of a fresh literal whose lb was built from the hostSet stored beside it; " +
-			"(R4) each scanning policy visits `total` slots before returning nil. Decides the code shape on all paths, not concrete schedules. (R5) subsetLoadBalancer.ChooseHost returns an intermediate delegate result only on its non-nil edge, nil only when no fallback entry exists, and otherwise the fallback entry's result. (R6) in UpdateCluster the update handler never receives the new cluster after clustersMap.Store published it. (R7) the process-wide per-address registry of health words is only accessed through Load/LoadOrStore and never reassigned (append-only): the word the health checker marks and the word a balancer consults stay the same object. (R3 host-array) no value stored into hostSet.allHosts originates from sync.Pool.Get or another object's field (through append, re-slicing, phis and helpers of the package); no slice read from allHosts is given to sync.Pool.Put, stored in a global or appended to.",
+			"(R4) each scanning policy visits `total` slots before returning nil. Decides the code shape on all paths, not concrete schedules. (R5) subsetLoadBalancer.ChooseHost returns an intermediate delegate result only on its non-nil edge, nil only when no fallback entry exists, and otherwise the fallback entry's result. (R6) in UpdateCluster the update handler never receives the new cluster after clustersMap.Store published it. (R7) the process-wide per-address registry of health words is only accessed through Load/LoadOrStore and never reassigned (append-only): the word the health checker marks and the word a balancer consults stay the same object. (R3 host-array) no value stored into hostSet.allHosts originates from sync.Pool.Get or another object's field (through append, re-slicing, phis and helpers of the package); no slice read from allHosts is given to sync.Pool.Put, stored in a global or appended to. (R8) a fixed point marks functions whose result may be the empty outcome of a loop bounded by the choice field (through calls and phis, unless known non-nil on the arriving edge); no ChooseHost / unweightChoose* / unweightedChoose* is one.",
 		Run: runC05,
 	})
 }
@@ -53,6 +53,8 @@ func runC05(c *Ctx) {
 	c.Rule("C05.R7", "the health word a balancer consults is the one the checker writes: the per-address registry is append-only", 1)
 	defer healthRegistryAppendOnly(c, "C05.R7")
 	defer c05HostArrayPrivate(c)
+	c.Rule("C05.R8", "a sampling policy returns no host only after a full scan (or another balancer) was consulted", 5)
+	defer c05SampleThenScan(c)
 	c.Assumptions = append(c.Assumptions,
 		"Health() observed true earlier on the path counts as healthy (a concurrent flip after the check is outside the clause)",
 		"no reflection/unsafe in the balancers",
